@@ -3,8 +3,8 @@
 From Coq Require Import List NArith ZArith.
 From Coq.Strings Require Import Byte.
 From Coq Require Import Extraction ExtrOcamlBasic.
-From GI Require Import Lib.Bytes Gen.DiffConsts Diff.Diff Diff.DiffSpec Diff.DiffParse.
+From GI Require Import Lib.Bytes Gen.DiffConsts Diff.Diff Diff.DiffSpec Diff.DiffParse Diff.CoverFacts.
 Extraction Language OCaml.
 Extraction "extracted/diff/model.ml" Byte.of_N Byte.to_N lines tgs diff_hunks render diff
   apply_hunks swap_hunks tgs_ok C08_holds_on ctxC no_newline_msg
-  lines_go parse_render patch_bytes unpatch_bytes runs.
+  lines_go parse_render patch_bytes unpatch_bytes runs patch_text unpatch_text.
